@@ -250,3 +250,96 @@ Section Prog.
     auto.
   Qed.
 End Prog.
+
+(* ---------- the entry continuation of main: mu~ x. exit x ---------- *)
+Lemma exit_cont_fvt : forall x ty bb, ~ In bb (fvt (CMu CCns (new_id x) (CExit (CXVar CPrd (new_id x) ty) ty) ty)).
+Proof.
+  intros x ty bb H. apply fvt_mu_iff in H. destruct H as [H Hne]. apply fvs_exit in H. apply fvt_var in H.
+  apply Hne. subst bb. reflexivity.
+Qed.
+
+Lemma forallb_prd_eq : forall ctx,
+  forallb (fun b => match fbchi b with FPrd => true | FCns => false end) ctx =
+  forallb (fun b => fchi_eqb (fbchi b) FPrd) ctx.
+Proof. induction ctx as [|b r IH]; simpl; [reflexivity|]. rewrite IH. destruct (fbchi b); reflexivity. Qed.
+
+(* Semantic preservation of fun2core for the fragment [frag] (everything except codata and calls of
+   main), under the scope check [ws] and the capture guard [nocap]: every source run that ends in a
+   final outcome (normal exit or undefined arithmetic) is reproduced, output and outcome, by the Core
+   machine on the translated program.  Any number of definitions, recursion, non-tail conditionals
+   and cases (shared continuations), data types, labels and goto. *)
+Theorem fun2core_correct_fragment_lemma : forall (p : fcprog) (c : cprog) (args : list Z) (n : nat) (o : obs),
+  compile_prog p = Ok c ->
+  NoDup (map fdname (fcpdefs p)) ->
+  prog_guard p = true ->
+  run_fun n p args = o -> final o ->
+  exists m, run_core m c args = o.
+Proof.
+  intros p c args n o Hcomp Hnd Hguard Hrun Hfin.
+  pose proof (prog_codata p c Hcomp) as Hcod.
+  pose proof (prog_callee p c Hcomp Hnd Hguard) as Hcallee.
+  unfold run_fun in Hrun.
+  destruct (ffind_def p "main") as [d|] eqn:Ed; [|subst o; contradiction Hfin].
+  destruct (find_def_in _ _ _ Ed) as [Hin Hname].
+  destruct (prog_defs p c Hcomp) as [defs [Hdefs Hcd]].
+  destruct (compile_defs_main_head _ _ _ _ _ _ _ _ Hdefs Hnd Hin Hname) as [ul1 [g [ul2 [tl [Hm Hres]]]]].
+  simpl in Hres. rewrite Hres in Hcd.
+  unfold compile_main in Hm.
+  match type of Hm with context [run_def_body ?cd ?dd ?u ?k] =>
+    destruct (run_def_body cd dd u k) as [[body st']|?] eqn:Eb end; simpl in Hm; [|discriminate].
+  injection Hm as Hg Hul. subst g.
+  unfold run_def_body in Eb. destruct (fterm_type (fdbody d)) as [bty|] eqn:Ebty; [|discriminate].
+  apply mbind_inv in Eb. destruct Eb as [x0 [stx [Hx Hwc]]].
+  destruct (fresh_in_vars_inv _ _ _ _ Hx) as [Hfresh [Hused _]]. simpl in Hfresh, Hused.
+  pose proof (guard_of p Hguard d Hin) as Hgd. unfold def_guard in Hgd.
+  assert (Em : String.eqb (fdname d) "main" = true) by (apply String.eqb_eq; exact Hname).
+  rewrite Em, Ebty in Hgd.
+  apply andb_prop in Hgd. destruct Hgd as [Hgd Hdt]. apply andb_prop in Hgd. destruct Hgd as [Hgd Hnc].
+  apply andb_prop in Hgd. destruct Hgd as [Hfr Hws].
+  unfold run_core. rewrite Hcd. simpl.
+  unfold fentry_env in Hrun. unfold centry_env. simpl. rewrite entry_chi.
+  destruct (forallb (fun b => match fbchi b with FPrd => true | FCns => false end) (fdctx d)) eqn:Eprd;
+    [|exists 0%nat; exact Hrun].
+  destruct (fbind (fvars (fdctx d)) (map (fun z => FbP (FvInt z)) args) []) as [e1|] eqn:Ebind;
+    [|subst o; contradiction Hfin].
+  rewrite forallb_prd_eq in Eprd.
+  assert (Hdf : Forall dfield (map (fun z => FbP (FvInt z)) args)).
+  { apply Forall_forall. intros b Hb. apply in_map_iff in Hb. destruct Hb as [z [E _]]. subst b. exact I. }
+  destruct (kinds_of_fields (fdctx d) _ _ _ Hdf Eprd Ebind) as [Hk1 Hk2].
+  set (cont := CMu CCns (new_id x0) (CExit (CXVar CPrd (new_id x0) (compile_ty bty)) (compile_ty bty)) (compile_ty bty)) in *.
+  destruct (erel_binds p c n [] (fdctx d) (Sof (fvs body)) (fun _ => True)
+              (map (fun z => FbP (FvInt z)) args) (map (fun z => BP (PInt z)) args) [] [] e1) as [ce1 [Hcb [Hr _]]].
+  - clear. induction args as [|z r IH]; simpl; constructor; [reflexivity | exact IH].
+  - exact Hk2.
+  - exact Hk1.
+  - exact Ebind.
+  - intros bb Hgl. simpl in Hgl. discriminate.
+  - intros x _ _. exact I.
+  - rewrite Hcb. rewrite app_nil_r in Hr.
+    assert (Hsim : sim p c n (FEval (fdbody d) e1 FkHalt) (SNext (Run body ce1))).
+    { apply (proj1 (fl_all p c Hcod Hcallee n (fdbody d)) n (Nat.le_refl n) (compile_ctx (fdctx d)) (fdname d) cont stx body st'
+               e1 ce1 FkHalt Hwc Hfr Hws Hnc).
+      - intros d' Hd'. apply (prog_find p c Hcomp Hnd). rewrite Hcd. apply in_or_app. left. right. exact Hd'.
+      - intros bb Hb. unfold compile_ctx in Hb. apply in_map_iff in Hb. destruct Hb as [b0 [E Hb0]]. subst bb.
+        exists (fbvar b0). split; [reflexivity|]. rewrite Hused. right. apply used_binders_mono. unfold fvars. apply in_map. exact Hb0.
+      - intros y Hy. rewrite Hused. right. apply (bnd_used_binders p); assumption.
+      - intros y Hy. apply in_cnames_inv in Hy. destruct Hy as [bb [Hb _]]. exfalso. exact (exit_cont_fvt _ _ _ Hb).
+      - intros y _ Hy. apply in_cnames_inv in Hy. destruct Hy as [bb [Hb _]]. exact (exit_cont_fvt _ _ _ Hb).
+      - unfold cont. simpl. split; [reflexivity|]. split.
+        + rewrite (is_codata_compile p c Hcod). unfold data_ty in Hdt. apply negb_true_iff in Hdt. exact Hdt.
+        + intros Hy. apply in_cnames_inv in Hy. destruct Hy as [bb [Hb _]]. exact (exit_cont_fvt _ _ _ Hb).
+      - exact Hr.
+      - split.
+        + intros bb Hb _. exfalso. exact (exit_cont_fvt _ _ _ Hb).
+        + intros _. unfold cont. simpl. intros j Hj v pv Hd Hv env Ha.
+          destruct j as [|j1]; [apply sim_zero|].
+          destruct v as [z|tag fields|cls0 e0|t0 e0]; try contradiction;
+            [|eapply sim_stuck; reflexivity].
+          apply vrel_int in Hv. subst pv.
+          apply sim_cstep. simpl. apply sim_cstep. simpl.
+          rewrite (Ha (new_id x0)); [|simpl; left; reflexivity].
+          rewrite clookup_cons, cid_eqb_refl. apply sim_cstep. simpl.
+          assert (Hs : fstep p (FRet FkHalt (FvInt z)) = FHalt (OExit z)) by reflexivity.
+          exact (sim_halt p c j1 _ _ Hs). }
+    destruct (Hsim [] o Hrun Hfin) as [m Hm]. exists m. exact Hm.
+Qed.
